@@ -32,10 +32,12 @@ import (
 	"os"
 	"reflect"
 	"strconv"
+	"strings"
 	"testing"
 	"time"
 )
 
+var _ = strings.Join
 var _ = errors.New
 var _ = reflect.TypeOf
 var _ = strconv.Itoa
@@ -274,7 +276,7 @@ func racSame(a, b interface{}) bool {
 
 // ---- generators (seeded; boundary-heavy pools)
 
-var racCoeffs = []string{"0", "1", "2", "3", "5", "7", "9", "10", "15", "25", "45", "50", "55", "99", "100", "101", "125", "995", "999", "1000", "1234", "9995", "9999", "12345", "99995", "99999", "100000", "123456789", "999999999", "1000000001", "9223372036854775807", "9223372036854775808", "18446744073709551615", "18446744073709551616", "300000001", "5000001", "340282366920938463463374607431768211455", "340282366920938463463374607431768211456", "10000000000000000000000000000000000000001", "99999999999999999999999999999999999999999999"}
+var racCoeffs = []string{"0", "1", "2", "3", "5", "7", "9", "10", "15", "25", "45", "50", "55", "99", "100", "101", "125", "995", "999", "1000", "1234", "9995", "9999", "12345", "99995", "99999", "100000", "123456789", "999999999", "1000000001", "922337203685477580", "922337203685477581", "92233720368547758", "9223372036854775807", "9223372036854775808", "18446744073709551615", "18446744073709551616", "300000001", "5000001", "340282366920938463463374607431768211455", "340282366920938463463374607431768211456", "10000000000000000000000000000000000000001", "99999999999999999999999999999999999999999999"}
 var racExps = []int32{0, 0, 0, -1, 1, -2, 2, -3, 3, -5, 5, -7, 7, -8, -9, 10, -10, 19, -20, 38, -40, 150, -160, 200, 301}
 var racModes = []Rounder{RoundDown, RoundHalfUp, RoundHalfEven, RoundCeiling, RoundFloor, RoundHalfDown, RoundUp, Round05Up, "", "bogus"}
 var racInts = []int64{0, 1, -1, 2, 3, 5, 9, 10, -10, 100, 127, 128, 1000, 100000, -100000, 100001, -100001, 2147483647, -2147483648, 9223372036854775807, -9223372036854775808, 4294967295}
@@ -478,7 +480,12 @@ func (W *World) racParams(fn *ssa.Function) ([]racParam, bool) {
 					return nil, false
 				}
 			case *types.Pointer:
-				if b, ok := u.Elem().(*types.Basic); ok && b.Kind() == types.Int64 {
+				if isMathBigInt(u.Elem()) {
+					rp.goType, rp.gen, rp.cp, rp.show = "*big.Int", "racBig(racCoeffs[rng__.Intn(len(racCoeffs))])", "new(big.Int).Set(%s)", "%s.String()"
+					if true {
+						rp.gen = "func() *big.Int { v := racBig(racCoeffs[rng__.Intn(len(racCoeffs))]); if rng__.Intn(3) == 0 { v.Neg(v) }; return v }()"
+					}
+				} else if b, ok := u.Elem().(*types.Basic); ok && b.Kind() == types.Int64 {
 					rp.goType, rp.gen, rp.cp, rp.show = "*int64", "func() *int64 { v := genInt(rng__); return &v }()", "cpI64(%s)", "fmt.Sprint(*%s)"
 				} else {
 					return nil, false
@@ -694,8 +701,98 @@ func (W *World) racTest(fn *ssa.Function, fc *FuncContract) (string, error) {
 			fmt.Fprintf(&sb, "\t\tif %s != nil && %s && !racSame(%s, old_%s) {\n\t\t\ttt__.Fatalf(\"RACFAIL trial=%%d kind=frame/%s input: %%s\", trial__, desc__)\n\t\t}\n", p.name, cond, p.name, p.name, p.name)
 		}
 	}
+	W.racDifferential(&sb, fn, fc, params, call, nres)
 	sb.WriteString("\t}\n}\n")
 	return sb.String(), nil
+}
+
+// racDifferential appends the class D experiment: the exported operation is re-run on private copies of
+// the operands (as they were at entry) with (0) a garbage destination, (1) another garbage destination,
+// (2..) the destination aliasing each operand of its type in turn; destination and results must agree.
+func (W *World) racDifferential(sb *strings.Builder, fn *ssa.Function, fc *FuncContract, params []racParam, call string, nres int) {
+	if len(fc.Outs) == 0 || fc.Layer1 || !fc.Exported {
+		return
+	}
+	for _, rq := range fc.Requires {
+		if strings.Contains(rq.Src, "!=") && !strings.Contains(rq.Src, "!= nil") {
+			return // the contract restricts aliasing: not a candidate
+		}
+	}
+	isOutP := map[string]bool{}
+	for _, o := range fc.Outs {
+		isOutP[o] = true
+	}
+	var outs, aliasOps []racParam
+	for _, p := range params {
+		if isOutP[p.name] {
+			if p.ptrType != "Decimal" {
+				return
+			}
+			outs = append(outs, p)
+		}
+	}
+	if len(outs) != 1 {
+		return
+	}
+	for _, p := range params {
+		if !isOutP[p.name] && p.ptrType == "Decimal" {
+			aliasOps = append(aliasOps, p)
+		}
+	}
+	d := outs[0].name
+	sig := fn.Signature
+	fmt.Fprintf(sb, "\t\tif msg__ := func() (m__ string) {\n\t\t\tdefer func() { if r := recover(); r != nil { m__ = fmt.Sprintf(\"differential run panicked: %%v\", r) } }()\n")
+	fmt.Fprintf(sb, "\t\t\trun__ := func(mode__ int) (string, string, bool) {\n\t\t\t\trngd__ := rand.New(rand.NewSource(int64(mode__)*7919 + 13))\n\t\t\t\t_ = rngd__\n")
+	for _, p := range params {
+		if isOutP[p.name] {
+			continue
+		}
+		if p.cp != "" {
+			fmt.Fprintf(sb, "\t\t\t\tvar %s %s\n\t\t\t\tif old_%s != nil { %s = %s }\n", p.name, p.goType, p.name, p.name, fmt.Sprintf(p.cp, "old_"+p.name))
+		} else {
+			fmt.Fprintf(sb, "\t\t\t\t%s := %s\n", p.name, p.name)
+		}
+		fmt.Fprintf(sb, "\t\t\t\t_ = %s\n", p.name)
+	}
+	fmt.Fprintf(sb, "\t\t\t\tvar %s *Decimal\n\t\t\t\tswitch mode__ {\n\t\t\t\tcase 0, 1:\n\t\t\t\t\t%s = genDecimal(rngd__)\n", d, d)
+	for i, q := range aliasOps {
+		fmt.Fprintf(sb, "\t\t\t\tcase %d:\n\t\t\t\t\t%s = %s\n", i+2, d, q.name)
+	}
+	fmt.Fprintf(sb, "\t\t\t\t}\n\t\t\t\tif %s == nil { return \"\", \"\", false }\n", d)
+	var rets, shows []string
+	errNil := "true"
+	for i := 0; i < nres; i++ {
+		rets = append(rets, fmt.Sprintf("r%d__", i))
+		t := sig.Results().At(i).Type()
+		switch {
+		case isCondition(t):
+			shows = append(shows, fmt.Sprintf("fmt.Sprint(uint32(r%d__))", i))
+		case types.Identical(t, types.Universe.Lookup("error").Type()):
+			shows = append(shows, fmt.Sprintf("fmt.Sprint(r%d__ != nil)", i))
+			errNil += fmt.Sprintf(" && r%d__ == nil", i)
+		default:
+			if _, isPtr := t.Underlying().(*types.Pointer); isPtr {
+				shows = append(shows, "\"ptr\"")
+			} else {
+				shows = append(shows, fmt.Sprintf("fmt.Sprint(r%d__)", i))
+			}
+		}
+	}
+	assign := ""
+	if nres > 0 {
+		assign = strings.Join(rets, ", ") + " := "
+	}
+	fmt.Fprintf(sb, "\t\t\t\t%s%s\n", assign, call)
+	for i := 0; i < nres; i++ {
+		fmt.Fprintf(sb, "\t\t\t\t_ = r%d__\n", i)
+	}
+	if len(shows) == 0 {
+		shows = []string{"\"\""}
+	}
+	fmt.Fprintf(sb, "\t\t\t\treturn showDec(%s), strings.Join([]string{%s}, \",\"), %s\n\t\t\t}\n", d, strings.Join(shows, ", "), errNil)
+	fmt.Fprintf(sb, "\t\t\td0__, r0__, ok0__ := run__(0)\n\t\t\tfor mode__ := 1; mode__ < %d; mode__++ {\n\t\t\t\tdm__, rm__, _ := run__(mode__)\n\t\t\t\tif dm__ == \"\" && rm__ == \"\" { continue }\n", 2+len(aliasOps))
+	fmt.Fprintf(sb, "\t\t\t\tif rm__ != r0__ || (ok0__ && dm__ != d0__) {\n\t\t\t\t\treturn fmt.Sprintf(\"mode %%d (1: other previous contents of the destination; 2..: destination aliases operand #mode-1): reference %%s [%%s], variant %%s [%%s]\", mode__, d0__, r0__, dm__, rm__)\n\t\t\t\t}\n\t\t\t}\n\t\t\treturn \"\"\n\t\t}(); msg__ != \"\" {\n")
+	fmt.Fprintf(sb, "\t\t\ttt__.Fatalf(\"RACFAIL trial=%%d kind=differential input: %%s %%s\", trial__, desc__, msg__)\n\t\t}\n")
 }
 
 func svalKeys(m map[string]gval) map[string]SVal {
